@@ -18,6 +18,12 @@ RULE = ("ordered pairs of endpoints (a, b). transition-*: for each chosen zone (
         "span-*: random pairs by span class (< 1 s, < 1 day, < 2^33 s, up to years 1..9999) x zone-pair kind; unit-boundary: spans k*{1 s, 60 s, 3600 s} + {-1, 0, 1} us "
         "for k near powers of two and random, both signs; 2^33 s +- few us; date-pairs, naive-pairs, native operands on skipped wall times, year-1/9999 edges (same tzinfo "
         "object only), type errors. Pendulum endpoints are valid local times (skipped probes are moved past the gap); stdlib endpoints keep skipped wall times. "
+        "foreign-*: endpoints whose tzinfo is NOT a pendulum Timezone / FixedTimezone -- pendulum DateTimes that CARRY a zoneinfo.ZoneInfo (attached by the constructor or by "
+        "astimezone()), a datetime.timezone, a hand-written tzinfo subclass (no key / name) or a dateutil tz, and stdlib datetimes with the same objects -- as pairs {same object, "
+        "two objects of one zone, foreign vs the pendulum zone of the same name (cached / no_cache), vs another pendulum zone / fixed offset / UTC, vs another foreign zone, "
+        "pendulum endpoint vs stdlib endpoint sharing the object, two stdlib endpoints} placed around transitions (10 zones x 3 transitions x 7-8 probe pairs incl. +-1 day / 1 week "
+        "across the change and both folds of a repeated hour x 23 pair kinds; dateutil: 7 zones, transitions 1975..2036, 6 kinds), random spans in three classes and fixed-offset pairs, "
+        "every entry point; the harness checks in the staged interpreter that the object is not a pendulum zone and that its utcoffset() is the tz database's. "
         "non-trivial = distinct (entry, a, b, flag) with a != b.")
 EXHAUSTIVE = {"quick": False, "thorough": False}
 TRUSTED = [
@@ -49,6 +55,12 @@ DAY = T.US_DAY
 B33 = 2 ** 33 * MEG
 LO_W = 3 * DAY
 HI_W = T.MAX_WALL - 3 * DAY
+# tzinfo flavours of an endpoint (third field): "c" the cached pendulum zone, "x" a second object (pendulum no_cache zone / stdlib ZoneInfo(key) or
+# datetime.timezone on a stdlib endpoint), and the FOREIGN ones, carried by pendulum DateTimes as well as by stdlib datetimes:
+#   "z" zoneinfo.ZoneInfo.no_cache(name) / datetime.timezone(offset), attached through the DateTime constructor;  "a" the same object attached through
+#   utc.astimezone(obj);  "y" a second such object of the same zone;  "w" a hand-written tzinfo subclass (no key / name);  "d" dateutil.tz.gettz(name)
+FOREIGN = ("z", "a", "y", "w", "d")
+KEYLESS = ("w", "d")
 ENTRIES = ["sub", "diff0", "diff1", "interval0", "interval1", "abs_sub", "neg_sub"]
 UNITS = (MEG, 60 * MEG, 3600 * MEG)
 
@@ -120,14 +132,20 @@ def _obj_key(ep):
         return None
     if var == "c":
         return _canon_key(spec)
+    if var in FOREIGN:
+        # a foreign tzinfo object (not a pendulum Timezone / FixedTimezone); pendulum and stdlib endpoints of one case share it
+        return ("z" if var == "a" else var, spec)
     return ("x", spec, _native(ep))
 
 
 def _canon_of(ep):
     """Key of the object instance() attaches to a stdlib endpoint."""
     k, spec, var, W, f = ep
-    if var == "x" and _native(ep) and spec == 0:
+    if var in ("x", "z", "y", "a") and _native(ep) and spec == 0:
         return _canon_key("UTC")          # datetime.timezone(0) has tzname 'UTC' -> pendulum.UTC
+    if var in KEYLESS and _native(ep):
+        # no `key`, no `localize`, tzname(None) != 'UTC': _safe_timezone takes utcoffset(dt) -> the cached FixedTimezone of that offset
+        return _canon_key(_off(spec, W, f))
     return _canon_key(spec)
 
 
@@ -152,15 +170,17 @@ def _fixed_flag(ep):
     k, spec, var, W, f = ep
     if not _aware(ep):
         return 0
-    if var == "x" and _native(ep) and spec == 0:
+    if var in ("x", "z", "y", "a") and _native(ep) and spec == 0:
         return 0
+    if var in KEYLESS and _native(ep):
+        return 1
     return 1 if isinstance(spec, int) else 0
 
 
 # ----------------------------------------------------------------------------- case generation
 def _ep(kind, spec, var, W, f):
-    if kind == "P" and spec is not None:
-        W = _valid(spec, W)
+    if spec is not None and (kind == "P" or var in KEYLESS):
+        W = _valid(spec, W)          # keyless foreign zones (custom subclass, dateutil) read a skipped wall time in their own way: kept out
     return [kind, spec, var, W, f]
 
 
@@ -386,6 +406,151 @@ def cases(tier, seed):
     for A, B in [(aw, d), (d, aw), (nv, d), (d, nv)]:
         out.append(_mk("type-errors", "interval0", A, B))
         out.append(_mk("type-errors", "interval1", A, B))
+    # ---- endpoints whose tzinfo is FOREIGN (not a pendulum Timezone / FixedTimezone): pendulum DateTimes that carry one and stdlib datetimes
+    out += _foreign_cases(rnd, zs, quick, k)
+    return out
+
+
+# (kind, var of a, (native a), what b is)   b: ("same", var, native) same zone name | ("other", var, native) another zone | ("fixed", var, native) | ("utc", var, native)
+FOREIGN_KINDS = [
+    ("same-object", "z", False, ("same", "z", False)),
+    ("same-object-astimezone", "a", False, ("same", "a", False)),
+    ("astimezone-vs-constructor", "a", False, ("same", "z", False)),
+    ("second-object", "z", False, ("same", "y", False)),
+    ("vs-pendulum-same-name", "z", False, ("same", "c", False)),
+    ("vs-pendulum-no-cache", "a", False, ("same", "x", False)),
+    ("vs-pendulum-other-zone", "z", False, ("other", "c", False)),
+    ("vs-foreign-other-zone", "a", False, ("other", "z", False)),
+    ("vs-datetime-timezone", "z", False, ("fixed", "z", False)),
+    ("vs-pendulum-fixed", "z", False, ("fixed", "c", False)),
+    ("vs-pendulum-utc", "a", False, ("utc", "c", False)),
+    ("native-same-object", "z", False, ("same", "z", True)),
+    ("native-second-object", "z", False, ("same", "x", True)),
+    ("native-other-zone", "a", False, ("other", "z", True)),
+    ("both-native-same-object", "z", True, ("same", "z", True)),
+    ("both-native-second-object", "z", True, ("same", "y", True)),
+    ("custom-same-object", "w", False, ("same", "w", False)),
+    ("custom-vs-pendulum-same-name", "w", False, ("same", "c", False)),
+    ("custom-vs-zoneinfo", "w", False, ("same", "z", False)),
+    ("custom-vs-other-zone", "w", False, ("other", "c", False)),
+    ("custom-native-same-object", "w", False, ("same", "w", True)),
+    ("custom-both-native", "w", True, ("same", "w", True)),
+    ("custom-fixed-vs-zone", "z", False, ("fixed", "w", False)),
+]
+DATEUTIL_KINDS = [
+    ("dateutil-same-object", "d", False, ("same", "d", False)),
+    ("dateutil-vs-pendulum-same-name", "d", False, ("same", "c", False)),
+    ("dateutil-vs-zoneinfo", "d", False, ("same", "z", False)),
+    ("dateutil-vs-other-zone", "d", False, ("other", "c", False)),
+    ("dateutil-native-same-object", "d", False, ("same", "d", True)),
+    ("dateutil-both-native", "d", True, ("same", "d", True)),
+]
+# zones whose compiled file every reader (zoneinfo, dateutil: 32-bit block, no POSIX rule) presents alike between 1975 and 2036
+DATEUTIL_ZONES = ["Europe/Paris", "America/New_York", "Europe/London", "Australia/Lord_Howe", "America/St_Johns", "Asia/Kolkata", "America/Sao_Paulo"]
+FIXED_OFFS = [0, 3600, -3600, 19800, 20700, -12600, 86340, -86340, 1, -1, 45 * 60, 14 * 3600]
+
+
+def _foreign_pair(rnd, zs, name, kinddef, Wa, Wb, fa, fb):
+    """Endpoints (A, B) of one foreign pair kind; Wa / Wb are wall probes of `name` (b is re-rendered when it lives in another zone)."""
+    kind, var_a, nat_a, (where, var_b, nat_b) = kinddef
+    if where == "same":
+        spec_b, Wb_use = name, Wb
+    else:
+        if where == "other":
+            spec_b = zs[rnd.randrange(len(zs))]
+        elif where == "fixed":
+            spec_b = rnd.choice(FIXED_OFFS)
+        else:
+            spec_b = "UTC"
+        if var_b in ("w",) and spec_b == 0:
+            spec_b = 3600
+        Ua = _inst(["P", name, "c", _valid(name, Wa), fa])
+        Wb_use, fb = _render_b(spec_b, Ua + (Wb - Wa) + rnd.choice([0, 0, 1, -1, 1800 * MEG, -7200 * MEG]))
+    if not (LO_W < Wb_use < HI_W):
+        return None
+    if nat_a and not nat_b:
+        return None
+    A = _ep("N" if nat_a else "P", name, var_a, Wa, fa)
+    B = _ep("N" if nat_b else "P", spec_b, var_b, Wb_use, fb)
+    return A, B
+
+
+def _foreign_cases(rnd, zs, quick, k):
+    out = []
+
+    def emit(stream, A, B):
+        nonlocal k
+        if rnd.random() < 0.5:
+            A, B = B, A
+        e = _entry_for(k, A, B)
+        k += 1
+        if e in ("interval0", "interval1") or not (_native(A) and _native(B)):
+            out.append(_mk(stream, e, A, B))
+        else:                                   # two stdlib datetimes only meet pendulum through Interval(...)
+            out.append(_mk(stream, "interval0" if k % 2 else "interval1", A, B))
+
+    def around(name, kinds, trs, n_rand):
+        for (tt, o_pre, o_post) in trs:
+            probes = [W for W in T.wall_probes(tt, o_pre, o_post) if LO_W < W < HI_W]
+            if len(probes) < 10:
+                continue
+            day = rnd.choice([DAY, -DAY, 7 * DAY])
+            pairs = [(probes[4], probes[5]), (probes[5], probes[4]), (probes[1], probes[-2]), (probes[0] - 43200 * MEG, probes[0] - 43200 * MEG + day),
+                     (probes[0] - 3 * 3600 * MEG, probes[-1] + 5 * 3600 * MEG + 5)]
+            for _ in range(n_rand):
+                pairs.append((rnd.choice(probes), rnd.choice(probes)))
+            for (Wa, Wb) in pairs:
+                if not (LO_W < Wa < HI_W and LO_W < Wb < HI_W):
+                    continue
+                for kd in kinds:
+                    if kd[3][0] == "same" and (_repeated(name, Wa) or _repeated(name, Wb)):
+                        folds = [(0, 0), (0, 1), (1, 0), (1, 1)]
+                    elif _repeated(name, Wa):
+                        folds = [(0, 0), (1, 0)]
+                    else:
+                        folds = [(rnd.randrange(2), rnd.randrange(2))]
+                    for (fa, fb) in folds:
+                        pr = _foreign_pair(rnd, zs, name, kd, Wa, Wb, fa, fb)
+                        if pr is not None:
+                            emit("foreign-" + kd[0], pr[0], pr[1])
+
+    zsel = zs[:10] if quick else zs[:40]
+    for name in zsel:
+        trs = T.transition_probes(name, rnd, per_zone=(2 if quick else 5), rule_years=(2040, 9998))
+        if quick and len(trs) > 3:
+            trs = rnd.sample(trs, 3)
+        around(name, FOREIGN_KINDS, trs, 1 if quick else 2)
+    for name in DATEUTIL_ZONES:
+        trs = [t for t in T.transition_probes(name, rnd, per_zone=None, rule_years=()) if 5 * 365 * 86400 < t[0] < 66 * 365 * 86400]
+        if len(trs) > (2 if quick else 10):
+            trs = rnd.sample(trs, 2 if quick else 10)
+        around(name, DATEUTIL_KINDS, trs, 1 if quick else 4)
+    # random spans: both endpoints rendered from instants
+    for cname, lo, hi in [("lt-1day", 1, DAY), ("lt-2^33s", DAY, B33), ("beyond-2^33s", B33, HI_W - LO_W)]:
+        for _ in range(150 if quick else 2500):
+            span = rnd.randrange(lo, hi)
+            Ua = rnd.randrange(LO_W + DAY, HI_W - DAY - span)
+            name = zs[rnd.randrange(len(zs))]
+            kd = FOREIGN_KINDS[rnd.randrange(len(FOREIGN_KINDS))]
+            wa, fa = _render_b(name, Ua)
+            kind, var_a, nat_a, (where, var_b, nat_b) = kd
+            spec_b = name if where == "same" else (zs[rnd.randrange(len(zs))] if where == "other" else (rnd.choice(FIXED_OFFS[1:]) if where == "fixed" else "UTC"))
+            wb, fb = _render_b(spec_b, Ua + span)
+            if not (LO_W < wa < HI_W and LO_W < wb < HI_W):
+                continue
+            emit("foreign-span-" + cname, _ep("N" if nat_a else "P", name, var_a, wa, fa), _ep("N" if nat_b else "P", spec_b, var_b, wb, fb))
+    # two fixed-offset foreign objects (datetime.timezone / a hand-written fixed tzinfo): same object, two objects of one offset, two offsets
+    for _ in range(160 if quick else 2000):
+        span = rnd.choice([rnd.randrange(1, MEG), rnd.randrange(MEG, DAY), rnd.randrange(DAY, B33)])
+        Ua = rnd.randrange(LO_W + DAY, HI_W - DAY - span)
+        oa = rnd.choice(FIXED_OFFS[1:])
+        ob = rnd.choice([oa, oa, rnd.choice(FIXED_OFFS[1:])])
+        va = rnd.choice("zw")
+        vb = va if ob == oa and rnd.random() < 0.7 else rnd.choice("zwc")
+        nat_b = vb != "c" and rnd.random() < 0.3
+        A = _ep("P", oa, va, Ua + oa * MEG, 0)
+        B = _ep("N" if nat_b else "P", ob, vb, Ua + span + ob * MEG, 0)
+        emit("foreign-fixed-pairs", A, B)
     return out
 
 
@@ -414,6 +579,8 @@ def _build(pendulum, zoneinfo, ep, cache):
         if tz is None:
             if var == "c":
                 tz = T.pzone(spec)
+            elif var in FOREIGN:
+                tz = _foreign_tz(zoneinfo, spec, var)
             elif k == "N":
                 tz = _dt.timezone(_dt.timedelta(seconds=spec)) if isinstance(spec, int) else zoneinfo.ZoneInfo(spec)
             else:
@@ -423,7 +590,52 @@ def _build(pendulum, zoneinfo, ep, cache):
         return _dt.datetime(y, mo, d, h, mi, s, us, tzinfo=tz, fold=f), tz
     if tz is None:
         return pendulum.naive(y, mo, d, h, mi, s, us, fold=f), None
+    if var in FOREIGN:
+        # a pendulum DateTime that CARRIES the foreign tzinfo (pendulum.datetime(tz=...) / instance() would convert it to a pendulum zone)
+        if var == "a":
+            U = _inst(ep)
+            x = pendulum.DateTime(*T.fields_of(U), tzinfo=pendulum.UTC).astimezone(tz)
+            if T.wall_of(x) == W and x.fold == f and x.tzinfo is tz:
+                return x, tz
+        return pendulum.DateTime(y, mo, d, h, mi, s, us, tzinfo=tz, fold=f), tz
     return pendulum.datetime(y, mo, d, h, mi, s, us, tz=tz, fold=f), tz
+
+
+class _Wrapped(_dt.tzinfo):
+    """A hand-written tzinfo: no `key`, no `name`, no `localize`; the rules are those of a stdlib zone (fold aware) or one fixed offset."""
+
+    def __init__(self, inner):
+        self._inner = inner
+
+    def utcoffset(self, d):
+        return None if d is None else self._inner.utcoffset(d)
+
+    def dst(self, d):
+        return None if d is None else self._inner.dst(d)
+
+    def tzname(self, d):
+        return None if d is None else self._inner.tzname(d)
+
+    def __repr__(self):
+        return f"_Wrapped({self._inner!r})"
+
+
+def _foreign_tz(zoneinfo, spec, var):
+    if isinstance(spec, int):
+        base = _dt.timezone(_dt.timedelta(seconds=spec))
+        return _Wrapped(base) if var in KEYLESS else base
+    if var == "d":
+        try:
+            from dateutil import tz as _dutz
+            got = _dutz.gettz(spec)
+            if got is not None and not hasattr(got, "key") and not hasattr(got, "localize"):
+                return got
+        except Exception:  # noqa
+            pass
+        return _Wrapped(zoneinfo.ZoneInfo(spec))
+    if var == "w":
+        return _Wrapped(zoneinfo.ZoneInfo(spec))
+    return zoneinfo.ZoneInfo.no_cache(spec)
 
 
 def impl_run(cases):
@@ -453,6 +665,12 @@ def impl_run(cases):
                 bad = True
             if isinstance(x, pendulum.Date) == _native(ep):
                 bad = True
+            if _is_dt(ep) and _aware(ep) and ep[2] in FOREIGN:
+                # the foreign object is what the case says: not a pendulum zone, and its utcoffset() is the one of the tz database
+                if isinstance(x.tzinfo, (pendulum.tz.timezone.Timezone, pendulum.tz.timezone.FixedTimezone)):
+                    bad = True
+                if x.utcoffset() != td(seconds=_off(ep[1], ep[3], ep[4])):
+                    bad = True
         ia, ib = _ids(A, B)
         if _aware(A) and _aware(B) and ((a.tzinfo is b.tzinfo) != (ia[0] == ib[0])):
             bad = True
@@ -498,6 +716,8 @@ def _zenc(ep):
     if not _aware(ep):
         return [0, 0]
     u = T.unix_of_wall(W)
+    if var in KEYLESS and _native(ep):
+        return T.zone_enc(_off(spec, W, f), u - 90000, u + 90000)     # seen by pendulum only through utcoffset() at that point
     return T.zone_enc(spec, u - 90000, u + 90000)
 
 
@@ -661,3 +881,13 @@ LEVEL_NOTE = LEVEL_NOTE + " " + "model_is_code_interval_init / _interval_init_sh
 # ---- last batch of model = code theorems (appended) ----
 TRUSTED = [t for t in TRUSTED] + ['model_is_code_normalise_operand / _dt_sub / _dt_rsub / _dt_sub_delta / _dt_rsub_delta / _interval_abs / _interval_neg / _neg_of_absolute_interval: the operand normalisation of the translated DateTime.__sub__ / __rsub__ IS normalise_operand of the model, dt_sub / dt_rsub as whole results = interval_make on the normalised operand, Interval.__abs__ / __neg__ translated (= ival_abs / ival_neg at the level of the delta; -i of an absolute Interval is not negated: read off the code). Still hand-written + pinned: __contains__ (Gen/IntervalRange.v py_contains is a separate translation), as_duration, _getstate, the native AWARE operand whose tzinfo is FOREIGN (its canonical object comes from C01 model_is_code_safe_timezone, not yet composed with these theorems)']
 LEVEL_NOTE = LEVEL_NOTE + " " + 'model_is_code_normalise_operand / _dt_sub / _dt_rsub / _dt_sub_delta / _dt_rsub_delta / _interval_abs / _interval_neg / _neg_of_absolute_interval: the operand normalisation of the translated DateTime.__sub__ / __rsub__ IS normalise_operand of the model, dt_sub / dt_rsub as whole results = interval_make on the normalised operand, Interval.__abs__ / __neg__ translated (= ival_abs / ival_neg at the level of the delta; -i of an absolute Interval is not negated: read off the code). Still hand-written + pinned: __contains__ (Gen/IntervalRange.v py_contains is a separate translation), as_duration, _getstate, the native AWARE operand whose tzinfo is FOREIGN (its canonical object comes from C01 model_is_code_safe_timezone, not yet composed with these theorems)' + "."
+
+
+# ---- foreign tzinfo objects (appended) ----
+LEVEL_NOTE = LEVEL_NOTE + (" Foreign tzinfo objects (zoneinfo.ZoneInfo, datetime.timezone, hand-written subclass, dateutil) carried by pendulum DateTimes or stdlib datetimes are INSIDE the model: "
+                           "an endpoint is (identity of its tzinfo object, tz table, wall, fold), whatever the class of the object; Proofs/C05Foreign.v proves that the delta and every observable of "
+                           "the Interval are unchanged when the objects are replaced by others with the same utcoffset() rules and the same `is None` / `is` pattern "
+                           "(length_independent_of_tzinfo_class, observed_interval_independent_of_tzinfo_class) and that two aware endpoints sharing one object give the difference of the instants, "
+                           "not of the wall values (shared_tzinfo_object_delta_corrects_wall_difference). A keyless foreign object (custom subclass, dateutil) on a stdlib operand of `-` is modelled as "
+                           "pendulum sees it: the cached FixedTimezone of its utcoffset() at that point (harness-side encoding, _safe_timezone's foreign branches are not translated). "
+                           "Oracle-only part: that dateutil / the subclass answer the tz database's utcoffset() is checked per case in the staged interpreter.")
